@@ -11,7 +11,7 @@ package centrifuge
 //   * a recording DictionaryCompression engine whose DictionaryConnection marks encoded frames
 //     with a leading 'Z', logs `enc+`/`enc-`/`close`, and can park inside Encode on a gate.
 // Op line:
-//   race dict=0|1 rwq=0|1 jl=0|1 ncgate=0|1 gate=0|1 actor=none|publish|subscribe|unsubscribe|disconnect|publish2 post=none|publish|rpc encgate=0|1 closer=none|disconnect|clientclose
+//   race dict=0|1 rwq=0|1 wt=0|1 (timer-driven writer: ConnectReply.WriteDelay + WriteWithTimer) jl=0|1 ncgate=0|1 gate=0|1 actor=none|publish|subscribe|unsubscribe|disconnect|publish2 post=none|publish|rpc encgate=0|1 closer=none|disconnect|clientclose
 //     gate=1   : connect carries the server-side subscription "g"; `actor` runs while the connect is
 //                parked in Broker.Subscribe("g"); then the gate is released.
 //     gate=0   : `actor` runs after the connect reply was received (control).
@@ -219,6 +219,11 @@ func verifC11Race(kv map[string]string) string {
 	trCh := make(chan *websocketTransport, 2)
 	node.OnConnecting(func(ctx context.Context, e ConnectEvent) (ConnectReply, error) {
 		rep := ConnectReply{Credentials: &Credentials{UserID: "u"}, ReplyWithoutQueue: kv["rwq"] == "1"}
+		if kv["wt"] == "1" {
+			// timer-driven writer: no writer goroutine, a flush timer armed by enqueue does the writes
+			rep.WriteDelay = time.Millisecond
+			rep.WriteWithTimer = true
+		}
 		if wt, ok := e.Transport.(*websocketTransport); ok {
 			trCh <- wt
 		}
